@@ -205,3 +205,96 @@ def denote (d : Doc) : Cif :=
   d.map (fun b => let c := denoteBody b.body .empty; Container.mk b.code c.frames c.loops)
 
 end CifModel.Spec.Doc
+
+/-
+  Part 3 (C15, skip semantics) — "bypassed", declaratively over the document tree.  A handler program that only continues
+  or skips is run over the *document* (no tokens, no depth counter): the only state is the number `n` of handler callbacks
+  delivered so far.  The sub-tree below an element whose start answered SKIP_CURRENT is bypassed; after SKIP_SIBLINGS (at a
+  start, an end or an item) so are the following siblings.  `prunedDoc p d` is the document with the bypassed sub-trees
+  removed, with the documented conventions of the parser:
+    * a block / frame whose start answered SKIP_* still exists (empty); its end callback is delivered after SKIP_CURRENT (and
+      after a child asked to skip its siblings), not after SKIP_SIBLINGS;
+    * a loop whose start answered SKIP_* is not created and gets no loop_end; a loop bypassed from inside (packet_start /
+      packet_end answering SKIP_SIBLINGS) gets no loop_end either;
+    * a scalar item answered SKIP_* is not stored; a loop item answered SKIP_CURRENT stays in its packet; SKIP_SIBLINGS from a
+      loop item drops the whole packet (no packet_end); a packet whose start answered SKIP_* or whose end did not answer
+      CONTINUE is not stored; a loop left without packets is not stored.
+-/
+namespace CifModel.Spec.Doc
+open CifModel.ParseCB
+
+/-- the items of a packet from the current one on: (handler count after, an item asked to skip its siblings) -/
+def dItems (p : Prog) : List (Str × V) → Nat → Nat × Bool
+  | [], n => (n, false)
+  | (nm, v) :: is, n => if p n (.item nm v) = SKIP_SIBLINGS then (n + 1, true) else dItems p is (n + 1)
+
+/-- one packet: (handler count after, packet stored, later packets bypassed) -/
+def dPacket (p : Prog) (names : List Str) (pk : List V) (n : Nat) : Nat × Bool × Bool :=
+  if p n .pktStart = CONTINUE then
+    let it := dItems p (List.zip names pk) (n + 1)
+    if it.2 then (it.1, false, false)
+    else (it.1 + 1, decide (p it.1 (.pktEnd (List.zip names pk)) = CONTINUE), decide (p it.1 (.pktEnd (List.zip names pk)) = SKIP_SIBLINGS))
+  else (n + 1, false, decide (p n .pktStart = SKIP_SIBLINGS))
+
+/-- the packets of a loop: (handler count after, stored packets, the loop was bypassed from inside) -/
+def dPackets (p : Prog) (names : List Str) : List (List V) → Nat → Nat × List (List V) × Bool
+  | [], n => (n, [], false)
+  | pk :: pks, n =>
+    let r := dPacket p names pk n
+    if r.2.2 then (r.1, if r.2.1 then [pk] else [], true)
+    else
+      let rest := dPackets p names pks r.1
+      (rest.1, (if r.2.1 then [pk] else []) ++ rest.2.1, rest.2.2)
+
+/-- a loop: (handler count after, what is stored of it, following siblings bypassed) -/
+def dLoop (p : Prog) (storing : Bool) (names : List Str) (pks : List (List V)) (n : Nat) : Nat × List Elem × Bool :=
+  if p n (.loopStart names) = CONTINUE then
+    let b := dPackets p names pks (n + 1)
+    let kept : List Elem := if b.2.1.isEmpty then [] else [.loop names b.2.1]
+    if b.2.2 then (b.1, kept, false)
+    else (b.1 + 1, kept, decide (p b.1 (.loopEnd (if storing then some names else none)) = SKIP_SIBLINGS))
+  else (n + 1, [], decide (p n (.loopStart names) = SKIP_SIBLINGS))
+
+mutual
+  /-- an element that is not bypassed: (handler count after, what is stored of it, following siblings bypassed) -/
+  def dElem (p : Prog) (storing : Bool) : Elem → Nat → Nat × List Elem × Bool
+    | .item nm v, n => (n + 1, if p n (.item nm v) = CONTINUE then [.item nm v] else [], decide (p n (.item nm v) = SKIP_SIBLINGS))
+    | .loop names pks, n => dLoop p storing names pks n
+    | .frame code body, n =>
+      let h := if storing then some code else none
+      if p n (.frameStart h) = CONTINUE then
+        let b := dElems p storing body (n + 1)
+        (b.1 + 1, [.frame code b.2], decide (p b.1 (.frameEnd h) = SKIP_SIBLINGS))
+      else if p n (.frameStart h) = SKIP_CURRENT then
+        (n + 2, [.frame code []], decide (p (n + 1) (.frameEnd h) = SKIP_SIBLINGS))
+      else (n + 1, [.frame code []], true)
+  /-- the elements of a container body until one asks to skip its siblings: (handler count after, what is stored) -/
+  def dElems (p : Prog) (storing : Bool) : List Elem → Nat → Nat × List Elem
+    | [], n => (n, [])
+    | e :: es, n =>
+      let r := dElem p storing e n
+      if r.2.2 then (r.1, r.2.1)
+      else ((dElems p storing es r.1).1, r.2.1 ++ (dElems p storing es r.1).2)
+end
+
+/-- a data block: (handler count after, what is stored of it, following blocks bypassed) -/
+def dBlock (p : Prog) (storing : Bool) (b : Block) (n : Nat) : Nat × Block × Bool :=
+  let h := if storing then some b.code else none
+  if p n (.blockStart h) = CONTINUE then
+    let r := dElems p storing b.body (n + 1)
+    (r.1 + 1, { code := b.code, body := r.2 }, decide (p r.1 (.blockEnd h) = SKIP_SIBLINGS))
+  else if p n (.blockStart h) = SKIP_CURRENT then
+    (n + 2, { code := b.code, body := [] }, decide (p (n + 1) (.blockEnd h) = SKIP_SIBLINGS))
+  else (n + 1, { code := b.code, body := [] }, true)
+
+def dBlocks (p : Prog) (storing : Bool) : List Block → Nat → List Block
+  | [], _ => []
+  | b :: bs, n =>
+    let r := dBlock p storing b n
+    if r.2.2 then [r.2.1] else r.2.1 :: dBlocks p storing bs r.1
+
+/-- the document with the bypassed sub-trees removed -/
+def prunedDoc (p : Prog) (storing : Bool) (d : Doc) : Doc :=
+  if p 0 (.cifStart storing) = CONTINUE then dBlocks p storing d 1 else []
+
+end CifModel.Spec.Doc
